@@ -2,11 +2,9 @@
    Directives used (all part of the trusted base, see DESIGN.md §6):
    ExtrOcamlBasic (bool, option, unit, list, prod, sumbool -> OCaml types),
    ExtrOcamlNatInt (nat -> int), ExtrOcamlZBigInt (positive, N, Z -> Big_int_Z). *)
-From Coq Require Import Extraction ExtrOcamlBasic ExtrOcamlNatInt ExtrOcamlZBigInt.
+From Amgcl Require Import ExtractCommon.
 From Coq Require Import QArith Qcanon.
 From Amgcl Require Import Scalar QcInst Vec Crs Kernels.
-Extraction Blacklist List String Int Nat.
-Set Extraction Optimize.
 Separate Extraction
   QcInst.QcS Scalar.is_zero Scalar.smax Scalar.smin
   Vec Crs Kernels.
